@@ -25,10 +25,27 @@ theorem itemsMem_cons {ta : T} {idsa : List Id} {d : Dict} {t : T} {l : Id} :
 
 /-! ### single updates -/
 
+theorem mem_setAdd {o x : Id} {s : List Id} : (x ∈ if o ∈ s then s else o :: s) ↔ x ∈ s ∨ x = o := by
+  by_cases h : o ∈ s
+  · rw [if_pos h]
+    constructor
+    · exact Or.inl
+    · rintro (h1 | rfl); exact h1; exact h
+  · rw [if_neg h, List.mem_cons]
+    constructor
+    · rintro (h1 | h1); exact Or.inr h1; exact Or.inl h1
+    · rintro (h1 | h1); exact Or.inr h1; exact Or.inl h1
+
+theorem nodup_setAdd {o : Id} {s : List Id} (h : s.Nodup) : (if o ∈ s then s else o :: s).Nodup := by
+  by_cases ho : o ∈ s
+  · rw [if_pos ho]; exact h
+  · rw [if_neg ho]; exact List.nodup_cons.mpr ⟨ho, h⟩
+
 theorem mem_sAdd {r : SReg} {l o l' x : Id} : x ∈ sAdd r l o l' ↔ x ∈ r l' ∨ (x = o ∧ l' = l) := by
   unfold sAdd
-  by_cases h : l' = l <;> simp [h]
-  · tauto
+  by_cases h : l' = l
+  · subst h; simp only [if_true, mem_setAdd, and_true]
+  · simp [h]
 
 theorem mem_sDel {r : SReg} {l o l' x : Id} : x ∈ sDel r l o l' ↔ x ∈ r l' ∧ ¬(x = o ∧ l' = l) := by
   unfold sDel
@@ -42,7 +59,7 @@ theorem memD_dAdd {r : DReg} {l o l' x : Id} {t t' : T} :
     obtain ⟨rfl, rfl⟩ := h
     cases hr : r l' t' with
     | none => simp
-    | some s => simp; tauto
+    | some s => simp only [Option.getD_some, mem_setAdd, Option.some.injEq, exists_eq_left']
   · simp only [h, if_false, and_false, or_false]
 
 theorem memD_dDel {r : DReg} {l o l' x : Id} {t t' : T} :
@@ -394,6 +411,8 @@ theorem mem_trange {a : Int} {n : Nat} {t : Int} : t ∈ trange a n ↔ a ≤ t 
 structure WfEnv (E : Env) : Prop where
   shp_sub : ∀ o t l, l ∈ E.shp o t → l ∈ E.lanelets
   shp_nodup : ∀ o t, (E.shp o t).Nodup
+  cen_sub : ∀ o t l, l ∈ E.cen o t → l ∈ E.lanelets
+  cen_nodup : ∀ o t, (E.cen o t).Nodup
 
 /-- recorded shape-lanelet relation of a static obstacle: `l ∈ initial_shape_lanelet_ids` -/
 def RecShapeS (f : Fwd) (l : Id) : Prop := ∃ ids, f.initShape = some ids ∧ l ∈ ids
@@ -416,9 +435,17 @@ theorem mem_effShp {E : Env} {o l : Id} {t : T} : l ∈ effShp E o t ↔ (E.kind
 theorem effShp_of_ne {E : Env} {o : Id} (t : T) (h : E.kind o ≠ Kind.dynSet) : effShp E o t = E.shp o t := by
   unfold effShp; rw [if_neg h]
 
-/-- every recorded shape set is the lookup answer (for a time step of the horizon; `set()` for a set-based prediction), and a
-    recorded shape set comes with a recorded centre set -/
+/-- the centre lookup as far as the code consults it -/
+def effCen (E : Env) (o : Id) (t : T) : List Id := if E.kind o = Kind.dynSet then [] else E.cen o t
+
+theorem effCen_of_ne {E : Env} {o : Id} (t : T) (h : E.kind o ≠ Kind.dynSet) : effCen E o t = E.cen o t := by
+  unfold effCen; rw [if_neg h]
+
+/-- every recorded shape set and every recorded centre set is the lookup answer (for a time step of the horizon; `set()` for a
+    set-based prediction), and a recorded shape set comes with a recorded centre set -/
 structure Coh (E : Env) (f : Fwd) (o : Id) : Prop where
+  initCenter : ∀ ids, f.initCenter = some ids → ids = effCen E o (E.t0 o)
+  predCenter : ∀ d, f.predCenter = some d → ∀ t ids, (t, ids) ∈ d → ids = E.cen o t ∧ E.t0 o ≤ t ∧ t ≤ E.tf o
   initShape : ∀ ids, f.initShape = some ids → ids = effShp E o (E.t0 o)
   predShape : ∀ d, f.predShape = some d → ∀ t ids, (t, ids) ∈ d → ids = E.shp o t ∧ E.t0 o ≤ t ∧ t ≤ E.tf o
   center : ∀ ids, f.initShape = some ids → f.initCenter.isSome
@@ -432,6 +459,15 @@ structure InvOn (P : Id → Prop) (E : Env) (s : St) : Prop where
   invD : ∀ l t o, memD s.dreg l t o ↔ (P o ∧ o ∈ s.dynamics ∧ RecShapeD E (s.fwd o) o t l)
 
 def Inv (E : Env) (s : St) : Prop := InvOn (fun _ => True) E s
+
+/-- the part of the invariant that does not mention the registries: every obstacle object carries lookup answers only, and
+    the two obstacle dicts of the scenario hold obstacles of their own kind -/
+structure Base (E : Env) (s : St) : Prop where
+  coh : ∀ o, Coh E (s.fwd o) o
+  kindS : ∀ o, o ∈ s.statics → E.kind o = Kind.static
+  kindD : ∀ o, o ∈ s.dynamics → E.kind o ≠ Kind.static
+
+theorem InvOn.base {P : Id → Prop} {E : Env} {s : St} (h : InvOn P E s) : Base E s := ⟨h.coh, h.kindS, h.kindD⟩
 
 theorem InvOn.congr {P Q : Id → Prop} {E : Env} {s : St} (h : ∀ x, P x ↔ Q x) (hi : InvOn P E s) : InvOn Q E s :=
   { coh := hi.coh, kindS := hi.kindS, kindD := hi.kindD,
@@ -790,7 +826,24 @@ theorem assign_rec {E : Env} {o : Id} {f f3 : Fwd} {t : T} (hc : Coh E f o) (hns
     Coh E f3 o ∧
     (∀ l, RecShapeS f3 l ↔ (if t = E.t0 o then l ∈ E.shp o t else RecShapeS f l)) ∧
     ∀ t' l, RecShapeD E f3 o t' l ↔ RecShapeD E f o t' l ∨ (t' = t ∧ l ∈ E.shp o t) := by
-  refine ⟨⟨?_, ?_, ?_⟩, ?_, ?_⟩
+  refine ⟨⟨?_, ?_, ?_, ?_, ?_⟩, ?_, ?_⟩
+  · intro ids hi
+    rw [h2] at hi
+    split at hi
+    · next e => cases hi; rw [e, effCen_of_ne _ hns]
+    · exact hc.initCenter ids hi
+  · intro d hd t' ids hm
+    by_cases hk : E.kind o = Kind.dynTraj
+    · obtain ⟨dc, ds, e1, _, e3, _⟩ := h3 hk
+      rw [e3] at hd; cases hd
+      rcases mem_dictSet_imp _ _ _ _ _ hm with h | ⟨rfl, rfl⟩
+      · exact hc.predCenter dc e1 t' ids h
+      · refine ⟨rfl, ?_⟩
+        rcases ht with rfl | ⟨_, h5, h6⟩
+        · exact ⟨Int.le_refl _, tf_ge E o⟩
+        · exact ⟨h5, h6⟩
+    · rw [(h4 hk).1] at hd
+      exact hc.predCenter d hd t' ids hm
   · intro ids hi
     rw [h1] at hi
     split at hi
@@ -940,6 +993,24 @@ theorem inv_assignDynAt {E : Env} {s s' : St} {o : Id} {t : T} (hi : Inv E s) (h
           simp only [true_and, if_true, c3, hod]
         · simp [e]
 
+/-- attributes as an assignment / a reader writes them: both initial sets are the lookup answers -/
+theorem coh_mk {E : Env} {o : Id} (hns : E.kind o ≠ Kind.dynSet) (pc ps : Option Dict)
+    (hpc : ∀ d, pc = some d → ∀ t ids, (t, ids) ∈ d → ids = E.cen o t ∧ E.t0 o ≤ t ∧ t ≤ E.tf o)
+    (hps : ∀ d, ps = some d → ∀ t ids, (t, ids) ∈ d → ids = E.shp o t ∧ E.t0 o ≤ t ∧ t ≤ E.tf o) :
+    Coh E ⟨some (E.cen o (E.t0 o)), some (E.shp o (E.t0 o)), pc, ps⟩ o := by
+  refine ⟨?_, hpc, ?_, hps, ?_⟩
+  · intro ids h; cases h; exact (effCen_of_ne _ hns).symm
+  · intro ids h; cases h; exact (effShp_of_ne _ hns).symm
+  · intro ids _; rfl
+
+theorem coh_none {E : Env} {o : Id} : ∀ d, (none : Option Dict) = some d → ∀ t ids, (t, ids) ∈ d →
+    ids = E.cen o t ∧ E.t0 o ≤ t ∧ t ≤ E.tf o := by
+  intro d h; cases h
+
+theorem coh_none' {E : Env} {o : Id} : ∀ d, (none : Option Dict) = some d → ∀ t ids, (t, ids) ∈ d →
+    ids = E.shp o t ∧ E.t0 o ≤ t ∧ t ≤ E.tf o := by
+  intro d h; cases h
+
 theorem recShapeS_mk (c : Option (List Id)) (ids : List Id) (pc ps : Option Dict) (l : Id) :
     RecShapeS ⟨c, some ids, pc, ps⟩ l ↔ l ∈ ids := by simp [RecShapeS]
 
@@ -957,11 +1028,7 @@ theorem inv_assignStatic {E : Env} {s s' : St} {o : Id} (hi : Inv E s) (hos : o 
     split
     · next e =>
       subst e
-      refine ⟨?_, ?_, ?_⟩
-      · intro ids hids; cases hids
-        exact (effShp_of_ne _ (by rw [hi.kindS x hos]; intro h; cases h)).symm
-      · intro d hd; exact (hi.coh x).predShape d hd
-      · intro ids _; rfl
+      exact coh_mk (by rw [hi.kindS x hos]; intro h; cases h) _ _ (hi.coh x).predCenter (hi.coh x).predShape
     · exact hi.coh x
   · intro l x
     simp only [setFwd_fwd, setFwd_statics]
@@ -983,6 +1050,22 @@ theorem inv_assignStatic {E : Env} {s s' : St} {o : Id} (hi : Inv E s) (hos : o 
     · subst e; simp [hnd]
     · simp [e]
 
+theorem coh_initDicts {E : Env} {f : Fwd} {o : Id} (co : Bool) (hc : Coh E f o) : Coh E (initDicts co f) o := by
+  refine ⟨hc.initCenter, ?_, hc.initShape, ?_, hc.center⟩
+  · intro d hd
+    unfold initDicts at hd
+    cases hp : f.predCenter with
+    | none => simp [hp] at hd; subst hd; intro t ids hm; cases hm
+    | some d' => simp [hp] at hd; subst hd; exact hc.predCenter d' hp
+  · intro d hd
+    unfold initDicts at hd
+    cases hp : f.predShape with
+    | none =>
+      cases co
+      · simp [hp] at hd; subst hd; intro t ids hm; cases hm
+      · simp [hp] at hd
+    | some d' => simp [hp] at hd; subst hd; exact hc.predShape d' hp
+
 theorem inv_initDicts {E : Env} {s : St} {o : Id} (hi : Inv E s) :
     Inv E (s.setFwd o (initDicts false (s.fwd o))) := by
   have hrec : ∀ t l, RecShapeD E (initDicts false (s.fwd o)) o t l ↔ RecShapeD E (s.fwd o) o t l := by
@@ -997,12 +1080,7 @@ theorem inv_initDicts {E : Env} {s : St} {o : Id} (hi : Inv E s) :
     split
     · next e =>
       subst e
-      refine ⟨(hi.coh x).initShape, ?_, (hi.coh x).center⟩
-      intro d hd
-      unfold initDicts at hd
-      cases hp : (s.fwd x).predShape with
-      | none => simp [hp] at hd; subst hd; intro t ids hm; cases hm
-      | some d' => simp [hp] at hd; subst hd; exact (hi.coh x).predShape d' hp
+      exact coh_initDicts false (hi.coh x)
     · exact hi.coh x
   · intro l x
     simp only [setFwd_fwd, setFwd_statics, setFwd_sreg]
@@ -1097,11 +1175,7 @@ theorem invOn_readObs {P : Id → Prop} {E : Env} {s s' : St} {o : Id} (hi : Inv
       split
       · next e =>
         subst e
-        refine ⟨?_, ?_, ?_⟩
-        · intro ids hids; cases hids
-          exact (effShp_of_ne _ (by rw [hk]; intro h; cases h)).symm
-        · intro d hd; cases hd
-        · intro ids _; rfl
+        exact coh_mk (by rw [hk]; intro h; cases h) none none coh_none coh_none'
       · exact hi.coh x
     · intro l x
       simp only [setFwd_fwd, setFwd_statics]
@@ -1138,10 +1212,11 @@ theorem invOn_readObs {P : Id → Prop} {E : Env} {s s' : St} {o : Id} (hi : Inv
         split
         · next e =>
           subst e
-          refine ⟨?_, ?_, ?_⟩
+          refine ⟨?_, coh_none, ?_, coh_none', ?_⟩
+          · intro ids hids; cases hids
+            unfold effCen; rw [if_pos hset]
           · intro ids hids; cases hids
             unfold effShp; rw [if_pos hset]
-          · intro d hd; cases hd
           · intro ids _; rfl
         · exact hi.coh x
       · intro l x
@@ -1182,16 +1257,19 @@ theorem invOn_readObs {P : Id → Prop} {E : Env} {s s' : St} {o : Id} (hi : Inv
         split
         · next e =>
           subst e
-          refine ⟨?_, ?_, ?_⟩
-          · intro ids hids; cases hids
-            exact (effShp_of_ne _ hset).symm
+          refine coh_mk hset _ _ ?_ ?_
           · intro d hd t ids hm
             cases hd
             obtain ⟨a, ha, e1⟩ := List.mem_map.mp hm
             cases e1
             obtain ⟨h7, h8⟩ := mem_trange.mp ha
             exact ⟨rfl, h7, h8⟩
-          · intro ids _; rfl
+          · intro d hd t ids hm
+            cases hd
+            obtain ⟨a, ha, e1⟩ := List.mem_map.mp hm
+            cases e1
+            obtain ⟨h7, h8⟩ := mem_trange.mp ha
+            exact ⟨rfl, h7, h8⟩
         · exact hi.coh x
       · intro l x
         simp only [setFwd_fwd, setFwd_statics, setFwd_sreg]
@@ -1225,11 +1303,7 @@ theorem invOn_readObs {P : Id → Prop} {E : Env} {s s' : St} {o : Id} (hi : Inv
         split
         · next e =>
           subst e
-          refine ⟨?_, ?_, ?_⟩
-          · intro ids hids; cases hids
-            exact (effShp_of_ne _ hset).symm
-          · intro d hd; cases hd
-          · intro ids _; rfl
+          exact coh_mk hset none none coh_none coh_none'
         · exact hi.coh x
       · intro l x
         simp only [setFwd_fwd, setFwd_statics, setFwd_sreg]
@@ -1252,7 +1326,7 @@ theorem invOn_readObs {P : Id → Prop} {E : Env} {s s' : St} {o : Id} (hi : Inv
           · intro h6; exact Or.inr h6
         · simp [e]
 
-theorem invOn_clearReg {E : Env} {s : St} (hi : Inv E s) : InvOn (fun _ => False) E s.clearReg := by
+theorem invOn_clearReg {E : Env} {s : St} (hi : Base E s) : InvOn (fun _ => False) E s.clearReg := by
   refine ⟨hi.coh, hi.kindS, hi.kindD, ?_, ?_⟩
   · intro l o; simp [St.clearReg]
   · intro l t o; simp [St.clearReg, memD]
@@ -1288,7 +1362,7 @@ theorem foldlM_prefix {σ α : Type} (f : σ → α → Res σ) (L : List α) (Q
       (hstep pre s a s1 (hl a List.mem_cons_self) hq h1) h2
     rwa [List.append_assoc, List.singleton_append] at this
 
-theorem inv_reopenXml {E : Env} {s s' : St} (hw : WfEnv E) (hi : Inv E s) (h : reopenXml E s = .ok s') :
+theorem inv_reopenXml {E : Env} {s s' : St} (hw : WfEnv E) (hi : Base E s) (h : reopenXml E s = .ok s') :
     Inv E s' ∧ s'.statics = s.statics ∧ s'.dynamics = s.dynamics := by
   unfold reopenXml at h
   obtain ⟨s1, h1, h2⟩ := bind_ok.mp h
@@ -1315,7 +1389,7 @@ theorem inv_reopenXml {E : Env} {s s' : St} (hw : WfEnv E) (hi : Inv E s) (h : r
   obtain ⟨e1, e2, e3, _⟩ := addToLanelets_spec E x x' a hx
   exact ⟨r4.congr (fun y => by simp), e2.trans r2, e3.trans r3⟩
 
-theorem inv_reopenPb {E : Env} {s s' : St} (hw : WfEnv E) (hi : Inv E s) (h : reopenPb E s = .ok s') :
+theorem inv_reopenPb {E : Env} {s s' : St} (hw : WfEnv E) (hi : Base E s) (h : reopenPb E s = .ok s') :
     Inv E s' ∧ s'.statics = s.statics ∧ s'.dynamics = s.dynamics := by
   unfold reopenPb at h
   have p1 := foldlM_prefix (fun s o => do let s' ← readObs E s o; addToLanelets E s' o) (s.statics ++ s.dynamics)
@@ -1886,7 +1960,7 @@ theorem addToLanelets_total {E : Env} {s : St} {o : Id} (hw : WfEnv E) (hc : Coh
       obtain ⟨r2, hr2⟩ := h2
       exact ⟨_, by rw [hr1]; simp only [bind, Except.bind]; rw [hr2]; rfl⟩
 
-theorem add_total {E : Env} {s : St} {o : Id} (hw : WfEnv E) (hi : Inv E s)
+theorem add_total {E : Env} {s : St} {o : Id} (hw : WfEnv E) (hi : Base E s)
     (hfresh : o ∉ s.statics ∧ o ∉ s.dynamics ∧ o ∉ E.lanelets) : ∃ s', add E s o = .ok s' := by
   unfold add
   rw [if_neg (by rintro (h | h | h); exact hfresh.1 h; exact hfresh.2.1 h; exact hfresh.2.2 h)]
